@@ -5,6 +5,7 @@ import Parmcb.Driver.Graph
 import Parmcb.Driver.Knob
 import Parmcb.Driver.Dimacs
 import Parmcb.Driver.Demo
+import Parmcb.Driver.Float
 open Parmcb.Driver
 
 def dispatch (c : Case) : String :=
@@ -22,6 +23,9 @@ def dispatch (c : Case) : String :=
   | "trees" => handleTrees c
   | "cands" => handleCands c
   | "approx" => handleApprox c
+  | "fsum" => handleFsum c
+  | "fspt" => handleFspt c
+  | "exactq" => handleExactQ c
   | k => s!"diff {c.id} unknown-kind {k}"
 
 partial def readAll (h : IO.FS.Stream) (acc : Array String) : IO (Array String) := do
